@@ -1449,9 +1449,15 @@ def oracle_c13(ctx, focus):
         base = []
         import vocab
         words = [w for w in vocab.source_literals(lang) if w and " " not in w and not w.isdigit()]
+        # + the same words as a caller's tokens might carry them (padded, stray invisible characters, other case forms)
+        odd = [f(w) for w in words[:: max(1, len(words) // 25)] if w.isalpha()
+               for f in (lambda x: " " + x, lambda x: x + " ", lambda x: "\t" + x, lambda x: x + "\u00a0", lambda x: "\u200b" + x,
+                         lambda x: x.upper(), lambda x: x.capitalize())]
         states = vocab.states_for(lang, "quick")
         for _ in range(1500 if ctx.tier != "thorough" else 30000):
             w = rng.choice(words) if rng.chance(3, 4) else rng.choice(bank).split(" ")[0]
+            if rng.chance(1, 5):
+                w = rng.choice(odd)
             st = rng.choice(states)
             base.append("apply\t%s\t%s\t%s" % ("{L}", esc(w), st))
             base.append("applydec\t%s\t%s\t%s" % ("{L}", esc(w), st))
@@ -1467,7 +1473,8 @@ def oracle_c13(ctx, focus):
             base.append("text\t{L}\t%s\t%s" % (th, esc(t)))
             base.append("occ\t{L}\t%s\t%s" % (th, esc(t)))
             base.append("val\t{L}\t%s" % esc(t))
-            toks = " ".join("%s,%s,%d,%d,%d" % (esc(w), esc(w.lower()), rng.below(10) == 0, 0, 0) for w in t.split(" "))
+            pad = (lambda x: (" " + x) if rng.chance(1, 8) else x)
+            toks = " ".join("%s,%s,%d,%d,%d" % (esc(pad(w)), esc(pad(w).lower()), rng.below(10) == 0, 0, 0) for w in t.split(" "))
             base.append("scan\t{L}\t%s\t%s" % (th, toks))
             base.append("annot\t{L}\t%s" % toks)
         reqs = []
